@@ -131,6 +131,8 @@ pub struct Ctx {
     pub seed: u64,
     pub level: &'static str,
     replay: Option<(String, Value)>,
+    /// a raw (non-JSON) replay file: a fuzzer artifact
+    replay_raw: Option<Vec<u8>>,
     strict: bool,
     known: Vec<KnownFinding>,
     stats: Mutex<Stats>,
@@ -207,19 +209,23 @@ impl Ctx {
                 }
                 Err(_) => vec![],
             };
+        let mut replay_raw = None;
         let replay = replay.map(|p| {
             let b = std::fs::read(&p).unwrap_or_else(|e| {
                 eprintln!("cannot read replay file {}: {e}", p.display());
                 std::process::exit(2)
             });
-            let v: Value = serde_json::from_slice(&b).unwrap_or_else(|e| {
-                eprintln!("replay file is not JSON: {e}");
-                std::process::exit(2)
-            });
-            (
-                v["part"].as_str().unwrap_or("").to_string(),
-                v["case"].clone(),
-            )
+            match serde_json::from_slice::<Value>(&b) {
+                Ok(v) if v.get("part").is_some() && v.get("case").is_some() => (
+                    v["part"].as_str().unwrap_or("").to_string(),
+                    v["case"].clone(),
+                ),
+                _ => {
+                    // a fuzzer artifact: raw bytes for the property's fuzz targets
+                    replay_raw = Some(b);
+                    ("<raw>".to_string(), Value::Null)
+                }
+            }
         });
         Self {
             property,
@@ -227,6 +233,7 @@ impl Ctx {
             seed,
             level,
             replay,
+            replay_raw,
             strict,
             known,
             stats: Mutex::new(Stats::default()),
@@ -666,6 +673,100 @@ impl Ctx {
             "part": part, "mode": "enumeration", "cases": cases.len(), "wall_s": t0.elapsed().as_secs_f64()
         }));
         st.exhaustive_parts.push(part.to_string());
+    }
+
+    /// Coverage-guided campaign (libFuzzer via cargo-fuzz) on fuzz target `target`, whose
+    /// in-target oracle is `entry` (also used to replay raw artifacts in-process).  Runs only in
+    /// the thorough tier; in replay mode with a raw artifact the artifact is evaluated.
+    pub fn fuzz_campaign(
+        &self,
+        target: &str,
+        runs: u64,
+        max_len: usize,
+        seeds: Vec<Vec<u8>>,
+        entry: &dyn Fn(&[u8]) -> Outcome,
+    ) {
+        let part = format!("fuzz:{target}");
+        if self.replay.is_some() {
+            if let Some(raw) = &self.replay_raw {
+                let case = raw.clone();
+                if let Err((sig, detail)) = self.eval(&part, &case, &|c: &Vec<u8>| entry(c), true) {
+                    self.record_violation(&part, sig, detail, &case);
+                }
+            }
+            return;
+        }
+        if self.tier != Tier::Thorough || self.has_violation() {
+            return;
+        }
+        let t0 = Instant::now();
+        let root = verif_root();
+        let corpus = root.join("scratch").join(format!("corpus-{target}-{}", std::process::id()));
+        let _ = std::fs::remove_dir_all(&corpus);
+        let _ = std::fs::create_dir_all(&corpus);
+        let _ = std::fs::write(corpus.join("empty"), b"");
+        for (i, s) in seeds.iter().enumerate() {
+            let _ = std::fs::write(corpus.join(format!("seed{i}")), s);
+        }
+        let art = root.join("replays");
+        let _ = std::fs::create_dir_all(&art);
+        let art_prefix = format!("{}/{}-fuzz-{target}-", art.display(), self.property);
+        let out = std::process::Command::new("cargo")
+            .current_dir(root.join("fuzzing"))
+            .env("CARGO_NET_OFFLINE", "true")
+            .args(["+nightly", "fuzz", "run", "-s", "none", target])
+            .arg(&corpus)
+            .arg("--")
+            .arg(format!("-runs={runs}"))
+            .arg(format!("-seed={}", (self.seed % 0xffff_fffe) + 1))
+            .arg("-len_control=0")
+            .arg(format!("-max_len={max_len}"))
+            .arg(format!("-artifact_prefix={art_prefix}"))
+            .arg("-print_final_stats=1")
+            .output();
+        let _ = std::fs::remove_dir_all(&corpus);
+        let out = match out {
+            Ok(o) => o,
+            Err(e) => {
+                eprintln!("cannot run cargo fuzz: {e}");
+                std::process::exit(2);
+            }
+        };
+        let text = String::from_utf8_lossy(&out.stderr).to_string();
+        let grab = |key: &str| -> Option<u64> {
+            text.lines().rev().find_map(|l| {
+                let l = l.trim();
+                l.strip_prefix(key).and_then(|r| r.trim().parse().ok())
+            })
+        };
+        let execs = grab("stat::number_of_executed_units:").unwrap_or(0);
+        let cov = text.lines().rev().find_map(|l| {
+            l.split_whitespace().collect::<Vec<_>>().windows(2).find(|w| w[0] == "cov:").and_then(|w| w[1].parse::<u64>().ok())
+        });
+        {
+            let mut st = self.stats.lock().unwrap();
+            st.evaluations += execs;
+            st.parts.push(json!({"part": part, "mode": "libfuzzer", "executions": execs, "coverage_edges": cov,
+                "corpus_seeds": seeds.len() + 1, "wall_s": t0.elapsed().as_secs_f64(), "exit": out.status.code()}));
+        }
+        if !out.status.success() {
+            let artifact = text.lines().find_map(|l| l.split("Test unit written to ").nth(1)).map(|s| s.trim().to_string());
+            match artifact {
+                Some(path) => {
+                    let bytes = std::fs::read(&path).unwrap_or_default();
+                    // evaluate in-process to get the oracle's signature and detail
+                    let (sig, detail) = match self.eval(&part, &bytes, &|c: &Vec<u8>| entry(c), false) {
+                        Err(e) => e,
+                        Ok(()) => (format!("{}:fuzz-crash", self.property), "libFuzzer reported a crash that does not reproduce in-process (sanitizer or abort?)".into()),
+                    };
+                    self.violations.lock().unwrap().push(Violation { part, signature: sig, detail: format!("{detail} [artifact {path}]"), case: json!({"artifact": path}) });
+                }
+                None => {
+                    eprintln!("cargo fuzz failed without an artifact (build problem?):\n{}", text.lines().rev().take(30).collect::<Vec<_>>().into_iter().rev().collect::<Vec<_>>().join("\n"));
+                    std::process::exit(2);
+                }
+            }
+        }
     }
 
     /// Writes evidence, prints the verdict lines and returns the process exit code.
